@@ -251,7 +251,7 @@ func genOffset(r *rand.Rand) int64 {
 	var d int64
 	switch r.Intn(10) {
 	case 0:
-		d = multiMaxOffset - int64(r.Intn(20000))
+		d = multiMaxOffset + 10000 - int64(r.Intn(30000))
 	case 1:
 		d = 5001 + int64(r.Intn(20000))
 	case 2: // exact decimal ties
@@ -269,9 +269,6 @@ func genOffset(r *rand.Rand) int64 {
 	}
 	if d <= 5000 {
 		d = 5001
-	}
-	if d > multiMaxOffset {
-		d = multiMaxOffset
 	}
 	if r.Intn(3) == 0 {
 		d = -d
@@ -653,7 +650,7 @@ func (multiSlice) Gen(r *rand.Rand, i int, tier string) ([]string, []string) {
 		ops = append(ops, "mar "+fmtMulti(m))
 		tags = append(tags, "valid-value", fmt.Sprintf("top-mask-%d", i%8))
 		if valid, _ := multiValid(m); !valid {
-			tags = append(tags, "generator-bug-invalid")
+			tags = append(tags, "valid-gen-offset-out-of-range")
 		}
 		byts, err := m.Marshal()
 		if err == nil {
